@@ -1334,7 +1334,7 @@ class HintGen:
                     extras.append(("a", rng.choice(dom)))
                 else:
                     g = Gen(rng)
-                    t = g.g_attr(rng.choice([0, 1]), dom)
+                    t = strip_vars(g.g_attr(rng.choice([0, 1]), dom))
                     extras.append(("c", t))
             return ("h_annot", inner, tuple(extras))
         origins = sorted({type(a) for a in dom if type(a) in G}, key=lambda c: c.__name__)
@@ -1355,6 +1355,25 @@ class HintGen:
         if len(args) > 1 and rng.random() < 0.2:
             args = args[:rng.randint(1, len(args) - 1)]
         return ("h_gen", origin, tuple(args))
+
+
+def strip_vars(t):
+    """Variable-free version of a spec tree (type hints are read attribute by attribute, without an environment, so
+    the constraints placed inside Annotated[...] by the hint generator carry no constraint variables)."""
+    tag = t[0]
+    if tag in ("var", "rangevar", "ivar"):
+        return strip_vars(t[2])
+    if tag == "param":
+        return (tag, t[1], tuple(strip_vars(k) for k in t[2]))
+    if tag in ("anyof", "allof"):
+        return (tag, tuple(strip_vars(k) for k in t[1]))
+    if tag == "msg":
+        return (tag, strip_vars(t[1]), t[2])
+    if tag in ("array", "intattr", "sized", "rangeof", "single"):
+        return (tag, strip_vars(t[1]))
+    if tag == "rangelen":
+        return (tag, strip_vars(t[1]), strip_vars(t[2]))
+    return t
 
 
 def _hint_show(h):
